@@ -24,10 +24,10 @@ SAN_DECIDES = False      # the C parser's memory safety is decided by C30 on the
 
 def generate(ctx):
     rng = ctx.rng('gen')
-    nctx = ctx.scale(40, 1500)
+    nctx = ctx.scale(40, 400)
     per = 4
     seeds = [rng.getrandbits(40) for _ in range(nctx)]
-    return None, [{'seeds': seeds[i:i + per], 'nstr': ctx.scale(700, 3000)}
+    return None, [{'seeds': seeds[i:i + per], 'nstr': ctx.scale(700, 2000)}
                   for i in range(0, nctx, per)]
 
 
